@@ -649,3 +649,73 @@ do_single_conect = FunctionContract(
             ("atomidx = id2idx[atomid]", "atomidx = id2idx[atomid0]")],
 )
 CONTRACTS.append(do_single_conect)
+
+
+# ------------------------------------------------------------------ PDBParser.do_conect: the fixed columns of a CONECT line
+LineT, FieldT = TKey('LineT'), TKey('FieldT')
+
+
+def _id2idxs_source():
+    tree = _ast.parse(open(_os.path.join(_REPO, FP)).read())
+    fn = next(f for c in tree.body if isinstance(c, _ast.ClassDef) and c.name == 'PDBParser' for f in c.body
+              if isinstance(f, _ast.FunctionDef) and f.name == 'do_conect')
+    st = next(s for s in fn.body if isinstance(s, _ast.Assign) and _ast.unparse(s.targets[0]) == 'id2idxs')
+    return ' '.join(_ast.unparse(st.value).split())
+
+
+def setup_dc(cx):
+    from pyvc.builtins import list_append
+    eng = cx.eng
+    lines = cx.val('CONECT_LINES', TSeq(LineT))              # self._conects: the CONECT lines of the file, in order
+    cx.spec_env.update(CONECT_LINES=lines, LineT=LineT)
+    CALLS = cx.heap('RECORDS', cx.box('RECORDS', TSeq(TSeq(TInt))))   # the records handed to _do_single_conect, in order
+    rlen = cx.uf('rlen', [LineT], TInt)                      # len(line.rstrip())
+    field = cx.uf('field', [LineT, TInt, TInt], FieldT)      # line[a:b]
+    num_of = cx.uf('num_of', [FieldT], TInt)                 # int(text): a function of the text (ValueError for a blank field: not modelled)
+    l_ = z3.Const('l', LineT.sort())
+    cx.assume(z3.ForAll([l_], rlen(l_) >= 0))
+    eng.methods[('LineT', 'rstrip')] = lambda e, v: Obj('rstripped', __len__=Builtin(lambda e2: SV(TInt, rlen(to_z3(v, LineT))), 'len'))
+
+    def getslice_(e, v, lo, hi):
+        if lo is None or hi is None:
+            raise EngineError('open slice of a CONECT line')
+        return SV(FieldT, field(to_z3(v, LineT), to_z3(e.numval(e.num(lo)), TInt), to_z3(e.numval(e.num(hi)), TInt)))
+    eng.methods[('LineT', '__getslice__')] = getslice_
+    cx.spec_env['int'] = Builtin(lambda e, x: SV(TInt, num_of(to_z3(x, FieldT))), 'int')
+    table = Obj('id2idxs')                                   # the serial-number tables of the molecules read so far (comprehension: opaque)
+    eng.opaque_exprs[_id2idxs_source()] = lambda e: table
+
+    def dsc(e, atids, t):
+        e.oblige(t is table, 'tables:of-the-molecules-read')
+        list_append(e, CALLS, SV(TSeq(TInt), to_z3(atids, TSeq(TInt))))
+    return dict(self=Obj('PDBParser', _conects=lines, _do_single_conect=Builtin(dsc, '_do_single_conect'), molecules=Obj('molecules')))
+
+
+SPEC_DC = {
+    # the number of five-column fields after the record name, up to the last non-blank character
+    'nfields': "lambda l: ((rlen(l) - 6 + 4) // 5 if rlen(l) > 6 else 0)",
+}
+do_conect = FunctionContract(
+    FP, 'PDBParser.do_conect', 'C16', setup=setup_dc, spec_defs=SPEC_DC,
+    requires=["len(old(RECORDS)) == 0"],
+    ensures=[
+        # every CONECT line gives one record, in file order: the numbers in columns 7-11, 12-16, ... (five columns each, adjacent -
+        # what the writer produces), as many as reach the last non-blank character
+        "len(RECORDS) == len(CONECT_LINES)",
+        "forall(lambda r: implies(0 <= r and r < len(CONECT_LINES), len(RECORDS[r]) == nfields(CONECT_LINES[r])))",
+        "forall(lambda r, k: implies(0 <= r and r < len(CONECT_LINES) and 0 <= k and k < nfields(CONECT_LINES[r]), "
+        "   RECORDS[r][k] == num_of(field(CONECT_LINES[r], 6 + 5 * k, 11 + 5 * k))))",
+    ],
+    modifies=['RECORDS'],
+    loops={'L1': LoopSpec(inv=["len(RECORDS) == _i",
+                               "forall(lambda r: implies(0 <= r and r < _i, len(RECORDS[r]) == nfields(CONECT_LINES[r])))",
+                               "forall(lambda r, k: implies(0 <= r and r < _i and 0 <= k and k < nfields(CONECT_LINES[r]), "
+                               "   RECORDS[r][k] == num_of(field(CONECT_LINES[r], 6 + 5 * k, 11 + 5 * k))))"],
+                          modifies=['RECORDS']),
+           'L1.1': LoopSpec(inv=["len(atids) == _i", "start == 6 and width == 5",
+                                 "forall(lambda k: implies(0 <= k and k < _i, atids[k] == num_of(field(line, 6 + 5 * k, 11 + 5 * k))))"],
+                            modifies=['atids'])},
+    locals=dict(atids=TSeq(TInt)),
+    canary=[("start = 6", "start = 7"), ("width = 5", "width = 4"), ("atom = int(line[num:num + width])", "atom = int(line[num:num + width - 1])")],
+)
+CONTRACTS.append(do_conect)
